@@ -706,7 +706,20 @@ def r07_7(ctx: Ctx):
     cl = nbc.methods["cluster"]
     rets = [r for r in body_walk(cl.node) if isinstance(r, ast.Return)]
     ok = len(rets) == 1 and isinstance(rets[0].value, ast.ListComp) and norm(rets[0].value.elt).replace('"', "'") == f"{rets[0].value.generators[0].target.id}.data['individual']"
-    obs.append(ctx.ob("R07.7", cl, rets[0] if rets else cl.node, status=OK if ok else VIOLATION, detail="cluster() returns the individuals stored in tree nodes" if ok else "cluster() no longer returns node.data['individual'] of spanning-tree nodes", construct="nbc:returns-nodes"))
+    st_ret = OK if ok else INCONCLUSIVE
+    if not ok and len(rets) == 1 and isinstance(rets[0].value, ast.Name):
+        # a list filled in a loop: every element appended must be a node's individual (a subset is still a subset)
+        acc = rets[0].value.id
+        apps = [c for c in body_walk(cl.node) if isinstance(c, ast.Call) and isinstance(c.func, ast.Attribute) and c.func.attr in ("append", "insert") and norm(c.func.value) == acc and c.args]
+        cdefs = local_defs(cl)
+        els = [canon(c.args[-1], cdefs).replace('"', "'") for c in apps]
+        if apps and all(e.endswith(".data['individual']") for e in els) and all(isinstance(d, ast.List) and not d.elts for d in cdefs.get(acc, [])):
+            st_ret = OK
+        elif apps and any(isinstance(c.args[-1], ast.Call) and norm(c.args[-1].func).endswith("Individual") for c in apps):
+            st_ret = VIOLATION
+    elif not ok and len(rets) == 1 and isinstance(rets[0].value, ast.ListComp) and isinstance(rets[0].value.elt, ast.Call) and norm(rets[0].value.elt.func).endswith("Individual"):
+        st_ret = VIOLATION  # freshly constructed individuals: not members of any population
+    obs.append(ctx.ob("R07.7", cl, rets[0] if rets else cl.node, status=st_ret, detail="cluster() returns the individuals stored in tree nodes" if st_ret == OK else "cluster() returns newly constructed individuals, not members of the clustered population" if st_ret == VIOLATION else "cannot tell whether cluster() still returns node.data['individual'] of spanning-tree nodes", construct="nbc:returns-nodes"))
     if n_create < 2:
         obs.append(ctx.ob("R07.7", nbc, nbc.node, status=INCONCLUSIVE, detail="fewer than 2 create_node sites", construct="nbc:create-sites"))
     return obs
@@ -759,8 +772,8 @@ def _specialise(stmts, defs, seedx, seeded: bool):
     return out
 
 
-def r07_8(ctx: Ctx):
-    """R07.8 seeded population demes: pop_size - 1 sampled around the seed + one individual carrying the seed's genome; then evaluated and recorded."""
+def r07_8(ctx: Ctx, need: str = "contains-seed"):
+    """R07.8 seeded population demes: sampled around the seed, one individual carrying the seed's genome joins the population and is not cut from it afterwards (need='contains-seed', C07); need='size' (C12): the sampled individuals plus the seed, after any truncation, are exactly pop_size."""
     obs = []
     found = 0
     for ci in ctx.concrete_demes():
@@ -820,10 +833,30 @@ def r07_8(ctx: Ctx):
                 return VIOLATION, t
             return INCONCLUSIVE, t
 
+        # truncations of the population after it was built: `P = sorted(P, ...)[:k]`, `P = P[:k]`, topk-like selections
+        cuts = []
+        for s_ in seeded:
+            for n in ast.walk(s_):
+                if isinstance(n, ast.Assign) and len(n.targets) == 1 and isinstance(n.targets[0], ast.Name) and isinstance(n.value, ast.Subscript) and isinstance(n.value.slice, ast.Slice):
+                    base = n.value.value
+                    while isinstance(base, ast.Call) and norm(base.func) in ("sorted", "list", "reversed") and base.args:
+                        base = base.args[0]
+                    if isinstance(base, ast.Name) and base.id == n.targets[0].id:
+                        cuts.append(n)
         st, t = size_status(u_calls, False, res_u, ualld)
-        obs.append(ctx.ob("R07.8", init, u_calls[0] if u_calls else br, status=st, detail=f"{ci.name}: unseeded population has pop_size individuals" if st == OK else f"{ci.name}: the unseeded population is created with size `{t}`", construct=f"{ci.name}:unseeded-size"))
+        if need == "size":
+            obs.append(ctx.ob("R07.8", init, u_calls[0] if u_calls else br, status=st, detail=f"{ci.name}: unseeded population has pop_size individuals" if st == OK else f"{ci.name}: the unseeded population is created with size `{t}`", construct=f"{ci.name}:unseeded-size"))
         st, t = size_status(s_calls, True, res_s, alld)
-        obs.append(ctx.ob("R07.8", init, s_calls[0] if s_calls else br, status=st, detail=f"{ci.name}: seeded population samples pop_size - 1 individuals" if st == OK else f"{ci.name}: the seeded population samples `{t}` individuals (pop_size - 1 expected)", construct=f"{ci.name}:seeded-size"))
+        if need == "size":
+            cut_to_pop = [c_ for c_ in cuts if c_.value.slice.lower is None and c_.value.slice.upper is not None and (canon(res_s(c_.value.slice.upper), alld) == pop or bool(cfgpop.match(canon(res_s(c_.value.slice.upper), alld))))]
+            if cut_to_pop and st in (OK, VIOLATION) and re.fullmatch(r"(%s|[A-Za-z_][A-Za-z_0-9.]*\.pop_size)(-1|\+\d+)?" % re.escape(pop), t):
+                # at least pop_size - 1 sampled, the seed joins, the best pop_size are kept: exactly pop_size remain
+                st = OK
+                obs.append(ctx.ob("R07.8", init, cut_to_pop[0], detail=f"{ci.name}: `{t}` sampled + the seed, cut to pop_size", construct=f"{ci.name}:seeded-size"))
+            elif cuts and not cut_to_pop:
+                obs.append(ctx.ob("R07.8", init, cuts[0], status=INCONCLUSIVE, detail=f"{ci.name}: the seeded population is cut by `{norm(cuts[0])[:60]}`: size not derivable", construct=f"{ci.name}:seeded-size"))
+            else:
+                obs.append(ctx.ob("R07.8", init, s_calls[0] if s_calls else br, status=st, detail=f"{ci.name}: seeded population samples pop_size - 1 individuals" if st == OK else f"{ci.name}: the seeded population samples `{t}` individuals (pop_size - 1 expected)", construct=f"{ci.name}:seeded-size"))
         # the seed individual
         def _concat_terms(e):
             """terms of a `+` chain"""
@@ -899,6 +932,13 @@ def r07_8(ctx: Ctx):
         if st_app == OK and cond_app:
             st_app, why = VIOLATION, "the seed is appended only conditionally"
         obs.append(ctx.ob("R07.8", init, appends[0] if appends else br, status=st_app, detail=f"{ci.name}: the initial population contains the sprout seed" if st_app == OK else f"{ci.name}: {why}", construct=f"{ci.name}:seed-appended"))
+        if need == "contains-seed":
+            # once the seed has joined, the population is not cut again before it is recorded
+            if cuts and pop_names and any(norm(c_.targets[0]) == pop_names[0] for c_ in cuts):
+                c0 = next(c_ for c_ in cuts if norm(c_.targets[0]) == pop_names[0])
+                obs.append(ctx.ob("R07.8", init, c0, status=VIOLATION if st_app == OK else INCONCLUSIVE, detail=f"{ci.name}: after the seed has joined it the population is cut (`{norm(c0)[:70]}`): the seed is dropped whenever it is not among the individuals kept, so the child's initial population need not contain its seed", construct=f"{ci.name}:seed-kept"))
+            else:
+                obs.append(ctx.ob("R07.8", init, br, detail=f"{ci.name}: the population is not cut after the seed joined it", construct=f"{ci.name}:seed-kept"))
         # sampled around the seed
         if s_calls:
             ini = _kw(s_calls[0], "initialize")
@@ -926,5 +966,5 @@ RULES = [
     ("R07.5", r07_5, 6),
     ("R07.6", r07_6, 4),
     ("R07.7", r07_7, 8),
-    ("R07.8", r07_8, 12),
+    ("R07.8", r07_8, 9),
 ]
